@@ -318,3 +318,78 @@ package randomness
 //@   loop 3
 //@     invariant lo2 <= i && i <= ((n/Z)-1)/4 + 1
 //@     invariant P == 1.0 - cusum(n, Z, 1, -1, lo1, ((n/Z)-1)/4 + 1) + cusum(n, Z, 3, 1, lo2, i)
+
+// ---------------------------------------------------------------------------------------------
+// matrix_rank.go, utils.go (rank, rowEchelon)
+// Proved here: crash freedom, termination, frames, and the structure around the rank routine.
+// That rank() returns the true GF(2) rank is NOT proved (bounded stand-in, DESIGN §5 C04).
+
+//@ func rowEchelon
+//@   requires 0 <= m && m <= len(matrix)
+//@   requires forall r int :: {matrix[r]} 0 <= r && r < m ==> len(matrix[r]) >= m && allocated(matrix[r])
+//@   requires forall r int, c int :: {matrix[r][c]} 0 <= r && r < m && 0 <= c && c < m ==> 0 <= matrix[r][c] && matrix[r][c] <= 1
+//@   modifies matrix[*]
+//@   loop 1
+//@     invariant 0 <= i && i <= m && pivotstartcol == i && 0 <= pivotstartrow && pivotstartrow <= i && 0 <= pivotrow && (m >= 1 ==> pivotrow < m)
+//@     invariant forall r int, c int :: {matrix[r][c]} 0 <= r && r < m && 0 <= c && c < m ==> 0 <= matrix[r][c] && matrix[r][c] <= 1
+//@   loop 2
+//@     invariant pivotstartrow <= k && k <= m && 0 <= pivotrow && (m >= 1 ==> pivotrow < m)
+//@   loop 3
+//@     invariant 0 <= k && k <= m
+//@     invariant forall r int, c int :: {matrix[r][c]} 0 <= r && r < m && 0 <= c && c < m ==> 0 <= matrix[r][c] && matrix[r][c] <= 1
+//@   loop 4
+//@     invariant pivotstartrow + 1 <= j && j <= m
+//@     invariant forall r int, c int :: {matrix[r][c]} 0 <= r && r < m && 0 <= c && c < m ==> 0 <= matrix[r][c] && matrix[r][c] <= 1
+//@   loop 5
+//@     invariant 0 <= k && k <= m
+//@     invariant forall r int, c int :: {matrix[r][c]} 0 <= r && r < m && 0 <= c && c < m ==> 0 <= matrix[r][c] && matrix[r][c] <= 1
+
+//@ func rank
+//@   requires 0 <= m && m <= len(matrix)
+//@   requires forall r int :: {matrix[r]} 0 <= r && r < m ==> len(matrix[r]) >= m && allocated(matrix[r])
+//@   requires forall r int, c int :: {matrix[r][c]} 0 <= r && r < m && 0 <= c && c < m ==> 0 <= matrix[r][c] && matrix[r][c] <= 1
+//@   modifies nothing
+//@   ensures 0 <= r0 && r0 <= m
+//@   loop 1
+//@     invariant 0 <= i && i <= m && len(temp) == m && fresh(temp)
+//@     invariant forall r int :: {temp[r]} 0 <= r && r < i ==> len(temp[r]) == m && off(temp[r]) == 0 && fresh(temp[r]) && ref(temp[r]) != ref(temp)
+//@     invariant forall r int, c int :: {temp[r][c]} 0 <= r && r < i && 0 <= c && c < m ==> temp[r][c] == matrix[r][c]
+//@   loop 2
+//@     invariant 0 <= j && j <= m && len(temp[i]) == m && off(temp[i]) == 0 && fresh(temp[i])
+//@     invariant forall r int :: {temp[r]} 0 <= r && r < i ==> len(temp[r]) == m && off(temp[r]) == 0 && fresh(temp[r]) && ref(temp[r]) != ref(temp[i]) && ref(temp[r]) != ref(temp)
+//@     invariant forall r int, c int :: {temp[r][c]} 0 <= r && r < i && 0 <= c && c < m ==> temp[r][c] == matrix[r][c]
+//@     invariant forall c int :: {temp[i][c]} 0 <= c && c < j ==> temp[i][c] == matrix[i][c]
+//@   loop 3
+//@     invariant 0 <= i && i <= m && 0 <= rank && rank <= i
+//@   loop 4
+//@     invariant 0 <= j && j <= m
+
+//@ func MatrixRankProto
+//@   cases M in {32}
+//@   cases Q in {32}
+//@   requires len(bits) >= 1024
+//@   modifies nothing
+//@   pure
+//@   loop 1
+//@     invariant 0 <= i && i <= 32 && len(matrix) == 32 && fresh(matrix)
+//@     invariant forall r int :: {matrix[r]} 0 <= r && r < i ==> len(matrix[r]) == 32 && off(matrix[r]) == 0 && fresh(matrix[r])
+//@     invariant forall a int, c int :: {matrix[a], matrix[c]} 0 <= a && a < c && c < i ==> ref(matrix[a]) != ref(matrix[c])
+//@     invariant forall r int, c int :: {matrix[r][c]} 0 <= r && r < i && 0 <= c && c < 32 ==> matrix[r][c] == 0
+//@   assert after loop 1: forall r int :: {matrix[r]} 0 <= r && r < 32 ==> len(matrix[r]) == 32 && off(matrix[r]) == 0 && fresh(matrix[r])
+//@   assert after loop 1: forall a int, c int :: {matrix[a], matrix[c]} 0 <= a && a < c && c < 32 ==> ref(matrix[a]) != ref(matrix[c])
+//@   loop 2
+//@     invariant 0 <= i && i <= N && Fm + Fm1 + Fr == i && 0 <= Fm && 0 <= Fm1 && 0 <= Fr
+//@     invariant bits == bits@pre[i*1024:]
+//@     invariant forall r int, c int :: {matrix[r][c]} 0 <= r && r < 32 && 0 <= c && c < 32 ==> 0 <= matrix[r][c] && matrix[r][c] <= 1
+//@   loop 3
+//@     invariant 0 <= j && j <= M
+//@     invariant bits == bits@pre[i*1024 + j*32:]
+//@     invariant forall r int, c int :: {matrix[r][c]} 0 <= r && r < 32 && 0 <= c && c < 32 ==> 0 <= matrix[r][c] && matrix[r][c] <= 1
+//@     invariant forall r int, c int :: {matrix[r][c]} 0 <= r && r < j && 0 <= c && c < 32 ==> matrix[r][c] == (bits@pre[i*1024 + r*32 + c] ? 1 : 0)
+//@   loop 4
+//@     invariant 0 <= k && k <= Q
+//@     invariant bits == bits@pre[i*1024 + j*32 + k:]
+//@     invariant forall r int, c int :: {matrix[r][c]} 0 <= r && r < 32 && 0 <= c && c < 32 ==> 0 <= matrix[r][c] && matrix[r][c] <= 1
+//@     invariant forall r int, c int :: {matrix[r][c]} 0 <= r && r < j && 0 <= c && c < 32 ==> matrix[r][c] == (bits@pre[i*1024 + r*32 + c] ? 1 : 0)
+//@     invariant forall c int :: {matrix[j][c]} 0 <= c && c < k ==> matrix[j][c] == (bits@pre[i*1024 + j*32 + c] ? 1 : 0)
+//@   assert after loop 3: forall r int, c int :: {matrix[r][c]} 0 <= r && r < 32 && 0 <= c && c < 32 ==> matrix[r][c] == (bits@pre[i*1024 + r*32 + c] ? 1 : 0)
